@@ -540,6 +540,16 @@ leaps_before(struct dt_dt_s d)
 		on = (res + 1U < nleaps) &&
 			(leaps_s[res + 1] == (int32_t)d.sexy);
 		break;
+	case DT_YWD:
+	case DT_YD:
+	case DT_BIZDA: {
+		/* no table for these, go by ymd */
+		const struct dt_d_s tmp = dt_dconv(DT_YMD, d.d);
+
+		res = leaps_before_ui32(leaps_ymd, nleaps, tmp.ymd.u);
+		on = res + 1 < nleaps && leaps_ymd[res + 1] == tmp.ymd.u;
+		break;
+	}
 	default:
 		res = 0;
 		on = false;
